@@ -41,7 +41,7 @@ type OrCase struct {
 func genOrCase(t *rapid.T) interface{} {
 	c := &OrCase{}
 	n := rapid.IntRange(1, 9).Draw(t, "nvals")
-	pg := rapid.OneOf(rapid.Int64Range(1, 3), rapid.SampledFrom([]int64{1, 2, 3, 10, 33, 34, 66, 67, 100, 1 << 20, 1 << 40}), rapid.Int64Range(1, 300))
+	pg := rapid.OneOf(rapid.Int64Range(1, 3), rapid.SampledFrom([]int64{1, 2, 3, 10, 33, 34, 66, 67, 100, 1 << 20, 1 << 40, 1 << 48, 281500000000000, 120000000000000, 3 << 50, 1 << 58}), rapid.Int64Range(1, 300))
 	for i := 0; i < n; i++ {
 		c.Vals = append(c.Vals, OrVal{Power: pg.Draw(t, "power"), Bonded: i == 0 || rapid.IntRange(0, 9).Draw(t, "bonded") < 8})
 	}
